@@ -453,8 +453,13 @@ func (j *OpenIDConfiguration) UnmarshalJSON(bytes []byte) error {
 	if err := json.Unmarshal(metadataJson, &j.Metadata); err != nil {
 		return err
 	}
-	keysAsJson, _ := json.Marshal(claims["jwks"])
 	j.JWKs = jwk.NewSet()
+	if claims["jwks"] == nil {
+		// no keys (member missing or null): keep the empty set.
+		// Unmarshalling a JSON null into the jwk.Set interface would set it to nil, which callers dereference.
+		return nil
+	}
+	keysAsJson, _ := json.Marshal(claims["jwks"])
 
 	return json.Unmarshal(keysAsJson, &j.JWKs)
 }
